@@ -175,6 +175,9 @@ def run_estimate_case(mut: ModelUnderTest, case, rnd):
 
 
 # ----------------------------------------------------------------------------------------------
+PRED_RTOL = 1e-4
+
+
 def run_gauge_case(config, xis_scaled, rnd, extreme=None, recenter=True, family="logistic", metric_terms=None):
     """Re-centring on a real state: trajectories, attachments, event likelihood unchanged; zero mean; orthogonality."""
     rec = {"type": "gauge", "kind": family, "form": "dict", "req": [["s1", "t1"]], "xis": list(xis_scaled), "config": config,
@@ -231,6 +234,14 @@ def run_gauge_case(config, xis_scaled, rnd, extreme=None, recenter=True, family=
                         out["attach"] = st[key].clone().double()
                         break
                 out["event"] = st["nll_attach_event_ind"].clone().double() if "nll_attach_event_ind" in st.dag else torch.zeros(1, dtype=torch.double)
+                # the two ingredients of the event part of a joint trajectory (corrected survival / cumulative incidences):
+                # hazard and log-survival of the Weibull family on the reparametrized time, at every individual's event time
+                out["pred"] = []
+                if "nll_attach_event_ind" in st.dag:
+                    ev_obs = next(o for o in model.obs_models if o.name == "event")
+                    for fn in ("compute_hazard", "compute_log_survival"):
+                        f = ev_obs.dist.get_func(fn, "event")
+                        out["pred"].append(torch.as_tensor(f.call({p: st[p] for p in f.parameters})).clone().double())
                 # first-order effect on the Gaussian attachment of a trajectory deviation within the accepted tolerance:
                 # sum_j |y - m| / sigma^2 * 1e-5 (1 + |m|)  per individual (zero for other observation models)
                 out["slack"] = torch.zeros_like(out["attach"]) if "attach" in out else torch.zeros(1, dtype=torch.double)
@@ -272,6 +283,11 @@ def run_gauge_case(config, xis_scaled, rnd, extreme=None, recenter=True, family=
             # the attachment may move by what the accepted trajectory deviation allows (float32 conditioning of extreme states)
             rec["attach_same"] = bool(((before["attach"] - after["attach"]).abs() <= 1e-5 * (1 + before["attach"].abs()) + 4 * before["slack"]).all())
             rec["event_same"] = same(before["event"], after["event"])
+
+            def same_rel(a, b):
+                return bool(torch.isfinite(a).all()) and bool(torch.isfinite(b).all()) and bool(((a - b).abs() <= PRED_RTOL * a.abs() + 1e-300).all())
+            rec["pred_gap"] = max([float(((a - b).abs() / (a.abs() + 1e-300)).max()) for a, b in zip(before["pred"], after["pred"])] or [0.0])
+            rec["event_same"] = rec["event_same"] and all(same_rel(a, b) for a, b in zip(before["pred"], after["pred"]))
             rec["zero_mean"] = bool(abs(float(st["xi"].double().mean())) <= 1e-6) if recenter else True
             rec["gaps"] = [float((before[k] - after[k]).abs().max()) for k in ("traj", "attach", "event")]
             if "mixing_matrix" in st.dag and "orthonormal_basis" in st.dag:
